@@ -101,7 +101,7 @@ def main():
         },
         "engines": [
             {"name": "ENUM", "path": "/verif/mc/core", "serves_properties": sorted(CHECKS), "kind_free_text": "stateless choice-sequence explorer (DFS over recorded choice points, deviation bound, sharded over 16 worker processes), fresh-process workers, evidence/known-finding/replay bookkeeping"},
-            {"name": "SEAM", "path": "/verif/mc/overlay/zzseam + /verif/mc/cmd/seamgen + /verif/mc/seamctl", "serves_properties": ["C04", "C06", "C13"], "kind_free_text": "map-iteration-order seam: every range-over-map site of the library is rewritten at check time (go build -overlay, /repo untouched) to iterate in a canonical order transformed by a per-site policy the explorer chooses"},
+            {"name": "SEAM", "path": "/verif/mc/overlay/zzseam + /verif/mc/cmd/seamgen + /verif/mc/seamctl", "serves_properties": ["C04", "C06", "C10", "C13"], "kind_free_text": "map-iteration-order seam: every range-over-map site of the library is rewritten at check time (go build -overlay, /repo untouched) to iterate in a canonical order transformed by a per-site policy the explorer chooses"},
             {"name": "SCHED", "path": "/verif/mc/overlay/zzsync", "serves_properties": ["C20"], "kind_free_text": "cooperative deterministic scheduler + drop-in sync shim (Map, Once*, Mutex, RWMutex, WaitGroup, Pool) injected into pkg/inflector by build overlay; DFS over scheduling choices with deviation bound; deadlock detection"},
             {"name": "GOCHECK", "path": "/verif/mc/gocheck", "serves_properties": ["C10", "C11", "C16", "C17", "C18"], "kind_free_text": "compile-and-run back end: per-package compiler diagnostics, generated main that runs harness-written reflection checks (verifkit)"},
             {"name": "PIPE", "path": "/verif/mc/pipe", "serves_properties": [k for k in sorted(CHECKS) if "PIPE" in CHECKS[k]["engine"]], "kind_free_text": "pipeline driver: synthetic modules in private scratch dirs, gengo.NewContext+Execute through the public API with data-scripted recording generators (faults, Defer, ErrSkip/ErrIgnore, stateful), tree snapshots; child-process mode for runs that die"},
